@@ -32,6 +32,7 @@ echo "== demo exit codes: with=$WITH without=$WITHOUT"
 unset CARGO_TARGET_DIR
 RESULTS=""
 cd /verif
+if [ -n "${SEED_NO_CHECKS:-}" ]; then echo "== results: (checks run separately) suite=[$(echo "$SUITE" | head -1)] demo_with=$WITH demo_without=$WITHOUT"; exit 0; fi
 if [ -n "$(git -C /repo status --porcelain)" ]; then echo "/repo not clean"; exit 2; fi
 git -C /repo apply "$DEST/patch.diff" || { echo "patch does not apply to /repo"; exit 2; }
 for c in "$@"; do
